@@ -36,23 +36,40 @@ def setup(ctx, finding=FINDING):
 
 
 def gen_cases(ctx, kind):
+    """every one of the 237 settings in every pass; rare (Laue class, setting) classes are repeated so that each class
+    gets at least 12 (quick) / 60 (thorough) cases per run"""
+    from xfab import sg as sgmod
     rng = ctx.rng(1)
     sets = hkl.settings()
+    cls = {}
+    for (no, cc) in sets:
+        o = sgmod.sg(sgno=no, cell_choice=cc)
+        cls.setdefault((o.Laue, o.cell_choice == "rhombohedral"), []).append((no, cc))
     reps = ctx.n(1, 14)
-    idx = 0
+    plan = []
     for rep in range(reps):
         for (no, cc) in sets:
-            s = int(rng.integers(0, 2 ** 31))
-            variant = ["generic", "orth"][rep % 2] if rep else ("generic" if (no + ctx.seed) % 2 else "orth")
-            big = ctx.thorough() and rep == 1
-            if ctx.mine(idx):
-                yield kind, {"no": no, "cc": cc, "variant": "orth" if big else variant, "s": s,
-                             "target": 2500 if big else int(rng.integers(30, 300 if ctx.tier == "quick" else 600)),
-                             "want_min": bool(rep % 3 == 2 or (rep == 0 and no % 3 == 0)),
-                             "module": "laue" if (idx + rep) % 3 == 0 else "tools"}
-            else:
-                rng.integers(30, 600)
-            idx += 1
+            plan.append((rep, no, cc))
+    floor = ctx.n(12, 60)
+    for key, members in sorted(cls.items()):
+        have = len(members) * reps
+        k = 0
+        while have < floor:
+            no, cc = members[k % len(members)]
+            plan.append((reps + k // len(members), no, cc))
+            have += 1
+            k += 1
+    variants = ["generic", "orth", "pseudo"]
+    for idx, (rep, no, cc) in enumerate(plan):
+        s = int(rng.integers(0, 2 ** 31))
+        target = int(rng.integers(30, 300 if ctx.tier == "quick" else 600))
+        variant = variants[(rep + no + ctx.seed) % 3]
+        big = ctx.thorough() and rep == 1
+        if ctx.mine(idx):
+            yield kind, {"no": no, "cc": cc, "variant": "orth" if big else variant, "s": s,
+                         "target": 2500 if big else target,
+                         "want_min": bool((rep + no) % 3 == 0),
+                         "module": "laue" if (idx + rep) % 3 == 0 else "tools"}
 
 
 def workload(ctx):
@@ -68,7 +85,11 @@ def prepare(ctx, p):
         return None
     cell = hkl.cell_for(rng, o.crystal_system, o.cell_choice, p["variant"])
     rhomb = o.cell_choice == "rhombohedral"
-    shell = hkl.choose_shell(rng, cell, p["target"], p["want_min"], avoid_scale=1.1 if (rhomb and o.Laue == "-3") else None)
+    target = p["target"]
+    if target < 2500:
+        # the walk only visits one asymmetric unit: for high symmetry a much larger shell costs the same
+        target = int(min(2500, target * max(1, sx.LAUE_ORDER.get(o.Laue, 2) // 4)))
+    shell = hkl.choose_shell(rng, cell, target, p["want_min"], avoid_scale=1.1 if (rhomb and o.Laue == "-3") else None)
     if shell is None:
         return None
     smin, smax = shell
@@ -200,7 +221,12 @@ def case_all(ctx, p):
     name2 = "history:independent of numpy random state, name = number"
     try:
         np.random.seed(int(c["rng"].integers(0, 2 ** 31)))
-        r2 = mod.genhkl_all(c["cell"], c["smin"], c["smax"], sgname=o.name)
+        if c["rhomb"] and p["s"] % 2:
+            # the other documented way to ask for the rhombohedral setting: plain name + explicit cell_choice
+            plain = o.name[:-1] if o.name[-1:] in "rR" else o.name
+            r2 = mod.genhkl_all(c["cell"], c["smin"], c["smax"], sgname=plain, cell_choice="rhombohedral")
+        else:
+            r2 = mod.genhkl_all(c["cell"], c["smin"], c["smax"], sgname=o.name)
         r3 = mod.genhkl_all(np.array(c["cell"]), c["smin"], c["smax"], sgno=o.no, cell_choice=p["cc"], output_stl=True)   # state left as it is
     except Exception as exc:
         mon.check(name2, False, observed=repr(exc))
